@@ -1260,6 +1260,23 @@ func Pair(w *load.World, c *core.Collector) {
 							}
 						}
 					}
+					// the deletion may sit in a helper that returns the point it deleted
+					for _, bb := range f.Blocks {
+						for _, ii := range bb.Instrs {
+							sc, ok := ii.(*ssa.Call)
+							if !ok || sc.Call.StaticCallee() == nil || !(ssax.Precedes(in, ii) || ssax.Precedes(ii, in)) {
+								continue
+							}
+							if h := pointRemovalHelper(sc.Call.StaticCallee()); h != nil && h.deletesReturned {
+								if ex := resultValue(sc, 0); ex != nil {
+									want := originSet([]ssax.Origin{{Val: ex, Path: []string{"NodeId"}}})
+									if sameOrigins(originSet(ssax.Resolve(call.Call.Args[1])), want) {
+										okFlow = true
+									}
+								}
+							}
+						}
+					}
 					v, d := core.OK, ""
 					if !okFlow {
 						v, d = core.Violation, "a node id is put on the free list without the point that owns it being deleted on the same path"
